@@ -40,7 +40,7 @@ HOOKS = [
      r"pub fn read_block\(&mut self, offset: u64, coin: &CoinType\) -> Result<Block> \{",
      """
         #[cfg(kani)]
-        if unsafe { crate::verif_models::hooks::RB_STUB_ON } {
+        if unsafe { crate::verif_models::hooks::RB_STUB_ON.v } {
             self.open()?;
             return Ok(crate::verif_models::hooks::marker_block(crate::verif_models::hooks::file_id(&self.path), offset as u64));
         }""", "hook_read_block"),
@@ -48,7 +48,7 @@ HOOKS = [
      r"pub fn get_block\(&mut self, height: u64\) -> Result<Option<Block>> \{",
      """
         #[cfg(kani)]
-        if unsafe { crate::verif_models::hooks::GB_STUB_ON } {
+        if unsafe { crate::verif_models::hooks::GB_STUB_ON.v } {
             return crate::verif_models::hooks::get_block_contract(height);
         }""", "hook_get_block"),
 ]
@@ -202,6 +202,13 @@ def build(dest, prop_id=None, files=None):
             s = "#[cfg(kani)]\nmacro_rules! format { ($($t:tt)*) => { crate::verif_models::fmtm::format(format_args!($($t)*)) } }\n" + s
             open(p, "w").write(s)
             info["rewrites"].append(f"{rel}: cfg(kani) `format!` routed through verif_models::fmtm::format (real formatting unless a harness selects constant rows)")
+
+    p = os.path.join(dest, "src/callbacks/opreturn.rs")
+    if os.path.exists(p):
+        s = open(p).read()
+        s = "#[cfg(kani)]\nmacro_rules! println { ($($t:tt)*) => { crate::verif_models::fmtm::println(format_args!($($t)*)) } }\n" + s
+        open(p, "w").write(s)
+        info["rewrites"].append("src/callbacks/opreturn.rs: cfg(kani) `println!` routed to verif_models::fmtm::println (real core::fmt formatting into a ghost buffer)")
 
     # models module
     shutil.copy(os.path.join(VERIF, "models", "verif_models.rs"), os.path.join(dest, "src", "verif_models.rs"))
